@@ -134,16 +134,20 @@ CLAIMED.update({
    text="GF.tla builds the field from the polynomial and Cantor basis; LCH.tla states what the skew table, Walsh table, multiplication tables, fft/ifft and eval_poly mean. "
         "TLC validates every entry of Exp, Log, Skew, LogWalsh, sampled multipliers of Mul16/Mul128, mul on probe blocks (all nibble patterns), fft/ifft for sizes up to 32 "
         "with every truncated size and boundary skew offsets against the polynomial-evaluation contract, and eval_poly against the locator definition for several truncated "
-        "sizes, for every engine. Thorough adds all 2^32 (symbol, log_m) pairs per engine against the certified tables. Small-field models check the definitions.",
-   note="Trusted: TLC, CommunityModules overrides. Large transforms are covered indirectly (C02 closed form, C03 cross-engine).", ref="DESIGN.md section 5, C15"),
+        "sizes, for every engine (also on working spaces at odd addresses). The complete tables as built by fresh processes restricted to 1, 3, 5, 6, 7, 12 CPUs must equal "
+        "the validated ones. Thorough adds all 2^32 (symbol, log_m) pairs per engine against the certified tables. Small-field models check the definitions. Shards.tla "
+        "(working-space views, xor helpers) is model-checked and trace-validated in the same run; its rejections are reported as observations, not as violations of C15.",
+   note="Trusted: TLC, CommunityModules overrides. Large transforms are covered indirectly (C02 closed form, C03 cross-engine).", ref="DESIGN.md section 5 (C15), 3.7b, 12.8"),
  "C16": dict(
    technique="TableInit.tla model-checked (all interleavings, deadlock, liveness) over dependencies observed from the code; trace validation of racing processes",
    text="Hook H4 records begin/end of each table initialiser. Fresh single-threaded processes yield the actual dependency relation and per-engine programs of the current "
         "tree; TLC explores all interleavings of 3 threads over them (no re-entrant initialisation, no deadlock, termination under fairness). Fresh multi-threaded "
         "processes (2..8 threads, barrier, all engines, objects handed over mid-round) are validated by Trace_TableInit.tla: proper nesting, no re-entrancy, nesting "
-        "within observed dependencies, every result equal to sequential execution, normal exit (watchdog for hangs).",
+        "within observed dependencies, every result equal to sequential execution, normal exit (watchdog for hangs). Gated schedules (hook H6): every reachable state of "
+        "the model with a running initialiser is reached on the real code by holding threads at the begin / end of initialisers and releasing them at one instant; "
+        "the process must terminate with sequential results (DESIGN.md 12.7).",
    note="Trusted: TLC, std::sync::LazyLock semantics as modelled. Race / storm processes sample real schedules (60 quick / 2000 thorough); gated schedules (hook H6) drive fresh processes into every reachable model state with a running initialiser (17 060 quick / 75 394 thorough processes); between hold points the OS schedules.",
-   ref="DESIGN.md section 5, C16"),
+   ref="DESIGN.md section 5 (C16) and 12.7"),
 })
 PENDING = {}
 for i in range(1, 18):
